@@ -185,7 +185,7 @@ def run_scale_tries(ctx, make_ops, judge, cfgs=('rel',)):
     cases = trie_cases(ctx, sets, make_ops, tag='z')
     correspond(ctx, cases, list(cfgs), judge, 'scale', model=False)
 
-def trie_cases(ctx, sets, make_ops, containers='svc', variants=gen.VARIANTS, bins=(0, 1), tag='t'):
+def trie_cases(ctx, sets, make_ops, containers='svcw', variants=gen.VARIANTS, bins=(0, 1), tag='t'):
     cases = []
     i = ctx.rng.randrange(24)
     for n, (desc, K) in enumerate(sets):
@@ -193,6 +193,7 @@ def trie_cases(ctx, sets, make_ops, containers='svc', variants=gen.VARIANTS, bin
         if desc.startswith('huge') and 15 in variants:
             v = 15 if n % 2 == 0 else 16          # > 32768 units: the second DAC level of the 15/16-bit variants
         i += 1
+        if desc.startswith('windows') and 'w' in containers: cont = 'w'     # keys handed over as aliasing windows of one buffer
         cases.append(gen.trie_case('%s%d-%s' % (tag, n, desc), v, b, cont, K, make_ops(K), {'desc': desc}))
         if desc.startswith('big-wide'):            # every variant: their block geometry differs (128- vs 256-unit L1 blocks)
             for v2 in variants:
@@ -251,6 +252,10 @@ def run_c03(ctx):
             # two enumerations alive at once, advanced alternately; then on the loaded / mapped dictionary
             o += ['IE 0', 'IE 1'] + ['N 0', 'N 1'] * (len(K) + 2)
             o += ['IE 2', 'N 2', 'IR 3 -', 'N 3', 'N 2', 'N 3', 'N 2']
+            # an enumeration continued through a copy (bookmark) and through a move of the iterator
+            half = max(1, len(K) // 2)
+            o += ['IE 4'] + ['N 4'] * half + ['IC 4 5'] + ['N 5', 'N 4'] * (len(K) - half + 1) + ['IM 5 6', 'N 6']
+            o += ['IE 4', 'N 4', 'IM 4 7'] + ['N 7'] * (len(K) + 1)
         o += ['USE load', 'E', 'EC']
         if len(K) <= 80:
             o += ['IE 0', 'IE 1'] + ['N 0', 'N 1'] * (len(K) + 1)
@@ -354,10 +359,10 @@ def run_c08(ctx):
     lists = gen.malformed_lists(ctx.rng, ctx.tier if not ctx.search_mode else 'thorough')
     cases = []
     for n, L in enumerate(lists):
-        v = gen.VARIANTS[n % 4]; b = (n // 4) % 2; c = 'svc'[(n // 2) % 3]
+        v = gen.VARIANTS[n % 4]; b = (n // 4) % 2; c = 'svcw'[(n // 2) % 4]
         cases.append(gen.trie_case('m%d' % n, v, b, c, L, ['STATS']))
     for L in lists[:16]:
-        for c in 'svc':
+        for c in 'svcw':
             for v in gen.VARIANTS:
                 cases.append(gen.trie_case('mf%d' % len(cases), v, 0, c, L, ['STATS']))
     def j(hdr, keys, ops, lines, case):
@@ -457,11 +462,16 @@ def run_c12(ctx):
     sets = keysets(ctx, ctx.scale(24, 120), ctx.scale(2, 10), big=True, huge=True)
     if ctx.tier == 'thorough':
         sets.append(gen.huge_set(ctx.rng))
+    # > 65536 units: the second level of the 16-bit DAC (m_num_levels != 0 in bc_vector_16)
+    az = bytes(range(97, 123))
+    sets.append(('huge16-100k', sorted(set(gen.rand_word(ctx.rng, az, 4, 10) for _ in range(60000)))))
     cases = []
     for n, (d, K) in enumerate(sets):
         v, b, _ = gen.pick_configs(ctx.rng, n)
         if d.startswith('huge'):
             v = 15 if n % 2 == 0 else 16
+        if d.startswith('huge16'):
+            v = 16
         src = ['built', 'load', 'mmap'][n % 3]
         nth = ctx.rng.choice([2, 3, 4, 8, 16] if ctx.tier == 'thorough' else [2, 4, 8])
         bat = gen.battery(K, ctx.rng, 25, kinds=('L', 'P', 'R', 'PC', 'RC')) + gen.id_ops(K)[:10] + ['E', 'EC', 'STATS', 'MEM', 'SAVE', 'SAVEBAD full', 'SAVEBAD nodir', 'SAVEBAD nodir', 'SAVEBAD full']
@@ -491,8 +501,12 @@ def hist_ops(ctx, K, n):
         elif r < 0.62:
             s = rng.choice(list(live)); ops.append('NI %d' % s); live[s] = 'adv'     # advance without reading the keyword
         elif r < 0.72:
-            s = rng.choice(list(live))
-            ops.append('N %d' % s); ops.append('G %d' % s) if False else None
+            s = rng.choice(list(live)); d = rng.choice([x for x in range(6) if x != s])
+            if rng.random() < 0.6:
+                ops.append('IC %d %d' % (s, d)); live[d] = live[s]      # a copy: both go on independently
+            else:
+                ops.append('IM %d %d' % (s, d)); live[d] = live[s]; del live[s]   # moved: only the target goes on
+            ops.append('N %d' % d)
         elif r < 0.80:
             ops.append('L ' + hexs(rng.choice(Q)))
         elif r < 0.90:
@@ -526,6 +540,13 @@ def j_hist(hdr, keys, ops, lines, case):
             slots[int(o[1])] = [list(K), 0, None]
         elif o[0] in ('IDP', 'IDR'):
             slots[int(o[1])] = [[], 0, None]
+        elif o[0] in ('IC', 'IM'):
+            src = slots.get(int(o[1]))
+            if src is not None:
+                slots[int(o[2])] = list(src)
+                if o[0] == 'IM': del slots[int(o[1])]
+            if l[:2] not in (['ic', 'ok'], ['im', 'ok']):
+                V.append(('C13', 'copying / moving an iterator -> %s' % ln))
         elif o[0] in ('MV',) or (o[0] == 'USE'):
             slots = {}
         elif o[0] == 'NI':
@@ -605,6 +626,11 @@ def run_c13(ctx):
                 q = spec.unhex(o[2]); slots[int(o[1])] = [len(spec.spec_prefixes(K, q) if o[0] == 'IP' else spec.spec_completions(K, q)), 0, False]
             elif o[0] == 'IE': slots[int(o[1])] = [len(K), 0, False]
             elif o[0] in ('IDP', 'IDR'): slots[int(o[1])] = [0, 0, False]
+            elif o[0] in ('IC', 'IM'):
+                src = slots.get(int(o[1]))
+                if src is None: continue
+                slots[int(o[2])] = list(src)
+                if o[0] == 'IM': del slots[int(o[1])]
             elif o[0] in ('MV', 'USE'): slots = {}
             elif o[0] in ('N', 'NI'):
                 s = slots.get(int(o[1]))
@@ -648,6 +674,9 @@ def run_c14(ctx):
             ops += ['XLRO']
             ops += ['BADPATH load missing', 'BADPATH load noparent', 'BADPATH tid missing', 'BADPATH tid noparent',
                     'BADPATH save noparent', 'BADPATH save dir']
+            # other ways of not being openable: ENAMETOOLONG, ELOOP, ENOTDIR, the empty path, a directory
+            ops += ['BADPATH %s %s' % (fn, w) for fn in ('load', 'tid', 'save') for w in ('longname', 'symloop', 'notdir', 'empty')]
+            ops += ['BADPATH load dir', 'BADPATH tid dir']
             cases.append(gen.trie_case('v%d-%s' % (n, d), v, b, 's', K, ops))
     correspond(ctx, cases, ['rel'], j_c14, 'main')
 
@@ -670,7 +699,7 @@ def j_c15(hdr, keys, ops, lines, case):
 def run_c15(ctx):
     sets = [s for s in keysets(ctx, ctx.scale(14, 60), ctx.scale(1, 6)) if sum(map(len, s[1])) < 3000]
     cases = trie_cases(ctx, sets, lambda K: ['TRUNCALL', 'USE load', 'L ' + hexs(K[0])], containers='s')
-    correspond(ctx, cases, ['rel'], j_c15, 'main')
+    correspond(ctx, cases, ['rel', 'cxx20'], j_c15, 'main')      # also with the headers compiled as C++20
     if ctx.scale_on:
         os.environ.setdefault('VERIF_CASE_TIMEOUT', '300')
         n = 2 ** 25 + 5          # a body of more than two 16 MiB pieces
@@ -718,7 +747,10 @@ def run_c16(ctx):
                ['LIMITT %d' % n for n in (0, 1, 4, 12, 100, 1000, 1100, 1500, 2047, 4096)]
     def big_ops(K):      # files > 8 KiB: refusals at and around stdio buffer boundaries, lasting and transient
         offs = [0, 1023, 1024, 4095, 4096, 8191, 8192, 8193, 12000, 16384, 20000]
-        return ['LIMIT %d' % n for n in offs] + ['LIMITT %d' % n for n in offs] + ['DEVFULL']
+        # transient refusals on a grid as well: which write call meets the refusal depends on the sizes of the vector
+        # bodies (libstdc++ sends a body of >= 1024 bytes to the file directly, smaller ones through the buffer)
+        grid = list(range(3, 40000, 509))
+        return ['LIMIT %d' % n for n in offs] + ['LIMITT %d' % n for n in offs + grid] + ['DEVFULL']
     cases = trie_cases(ctx, sets, ops, containers='s')
     bigsets = [s for s in gen.shaped_sets(ctx.rng, 0, big=True) if s[0] in ('big-4k', 'big-complete4')][:2]
     cases += trie_cases(ctx, bigsets, big_ops, containers='s', tag='b')
@@ -736,7 +768,7 @@ def run_c18(ctx):
     n = 0
     for d, K in sets:
         v = gen.VARIANTS[n % 4]; b = (n // 4) % 2
-        for c in 'svc':
+        for c in 'svcw':
             cases.append(gen.trie_case('d%d%s-%s' % (n, c, d), v, b, c, K, ['FILE', 'USE load', 'FILE']))
         # wide alphabets with many keys stress the block search of the builder differently per variant (an L1 block of
         # trie_7 is 128 units, character codes go up to 255): build those sets with every variant
@@ -745,7 +777,7 @@ def run_c18(ctx):
                 if v2 != v:
                     cases.append(gen.trie_case('d%ds-v%d-%s' % (n, v2, d), v2, b, 's', K, ['FILE', 'USE load', 'FILE']))
         n += 1
-    cfgs = ['O0a', 'O3', 'native', 'sse42', 'clang']
+    cfgs = ['O0a', 'O3', 'native', 'sse42', 'clang', 'cxx20']
     impl, _ = correspond(ctx, cases, cfgs, lambda *a: [], 'main')
     # bytes must agree across containers and configurations
     byset = {}
